@@ -37,6 +37,19 @@ def seek_danger_typestate(rep, prog, R):
             continue
         body = prog.bodies[fid]
         probes, viols = analyse(prog, summ, fid)
+        # an implementation of seek_danger is called again and again on the same object: what one call leaves
+        # invalid in `self` is what the next call finds — second pass with the exit states as entry states
+        if re.search(r" as tantivy::docset::DocSet>::seek_danger$", fid):
+            _, _, ex = analyse(prog, summ, fid, want_exit=True)
+            carried = {q: s for q, s in ex.items() if q[0] == "self" and s != 0}
+            if carried:
+                probes2, viols2 = analyse(prog, summ, fid, entry_state=carried)
+                seen_v = {(v["block"], v["path"]) for v in viols}
+                for v in viols2:
+                    if (v["block"], v["path"]) not in seen_v:
+                        v = dict(v)
+                        v["state"] = v["state"] + " (left so by an earlier call of this seek_danger)"
+                        viols.append(v)
         nprobe += len(probes)
         bad_paths = {v["path"] for v in viols}
         for bi, p in probes:
